@@ -23,7 +23,9 @@ def run(repo, res, tier):
         "T5 (send into an occupied push-back slot), T8 (value-returning production can fall off its end), "
         "T9 (must-pass-through: a block production returns only after its end statement was parsed), "
         "L-YIELD (every lexer yield is inside the try that converts a thrown ValueError to LexerError). "
-        "Decides the error-signalling contract, not completeness of the grammar.")
+        "UNITS-LANG (the language of units tokens parse_units accepts, by DFA pre-images of strip/slice/partition, is "
+        "<delim> text-without-delimiters <delim> and the units text handed on is that interior without surrounding "
+        "white space). Decides the error-signalling contract, not completeness of the grammar.")
     res.assumptions = ["generator protocol of next/send/throw (frozen table, DESIGN 2.5)",
                        "library may-raise table (DESIGN 2.4)"]
     t1 = parserules.add_rule(res, an, "T1")
@@ -73,3 +75,5 @@ def run(repo, res, tier):
     # quantity class) must stay outside that family, or a value loses its units without any error
     from .. import hookrules
     hookrules.rule_h3(repo, res)
+    # the units token the parser accepts: exactly <delimiter> text-without-delimiters <delimiter>, handed on unshortened
+    langrules.rule_units_lang(repo, res, langrules.analyse(repo))
